@@ -347,6 +347,63 @@ def r1_3(ctx):
                'the in-loop and end-of-block verification loops differ: %s' % _first_diff(bodies[0], bodies[1]))
 
 
+def r1_4(ctx):
+    """atom transformations keep the atom where it was: the factor applied to
+    byte positions is the factor applied to the backtrack distance"""
+    prog = ctx.prog
+    n_fn = 0
+    for f in prog.fns():
+        if f.file != 'libyara/atoms.c' and not ctx.fixture:
+            continue
+        bts = []
+        for n in f.all_nodes():
+            if n['k'] == 'bin' and n['op'] == '=':
+                l = cu.strip_casts(f, f.kid(n, 0))
+                r = cu.strip_casts(f, f.kid(n, 1))
+                if l is None or r is None or l['k'] != 'member' or l['fld'] != 'backtrack':
+                    continue
+                src, k = None, 1
+                if r['k'] == 'member' and r['fld'] == 'backtrack':
+                    src = r
+                elif r['k'] == 'bin' and r['op'] == '*':
+                    a, b = cu.strip_casts(f, f.kid(r, 0)), cu.strip_casts(f, f.kid(r, 1))
+                    for x, y in ((a, b), (b, a)):
+                        if x is not None and x['k'] == 'member' and x['fld'] == 'backtrack' and \
+                                cu.const_of(y) is not None:
+                            src, k = x, cu.const_of(y)
+                if src is not None:
+                    bts.append((n, canon(f, f.kid(l, 0)), canon(f, f.kid(src, 0)), k))
+        for n, dst, src, k in bts:
+            n_fn += 1
+            # positional factor of the byte copy dst->atom.bytes[i * s] = g(src->atom.bytes[i] | cursor[i])
+            scales = set()
+            for x in f.all_nodes():
+                if x['k'] == 'bin' and x['op'] == '=':
+                    l = cu.strip_casts(f, f.kid(x, 0))
+                    if l is not None and l['k'] == 'sub' and canon(f, f.kid(l, 0)) == '%s->atom.bytes' % dst:
+                        idx = cu.strip_casts(f, f.kid(l, 1))
+                        rhs_idx = [y for y in f.walk(f.kid(x, 1)) if y['k'] == 'sub']
+                        if not rhs_idx:
+                            continue            # constant fill, not a copy
+                        if idx is not None and idx['k'] == 'ref':
+                            scales.add(1)
+                        elif idx is not None and idx['k'] == 'bin' and idx['op'] == '*':
+                            c = cu.const_of(cu.strip_casts(f, f.kid(idx, 1)))
+                            c = c if c is not None else cu.const_of(cu.strip_casts(f, f.kid(idx, 0)))
+                            scales.add(c)
+                        else:
+                            scales.add(None)
+            ok = scales == set([k])
+            ctx.ob('R1.4', '%s:backtrack-scales-with-positions' % f.name, ok, f.loc(n),
+                   'bytes are copied to positions i * %d and the backtrack is multiplied by %d' % (k, k)
+                   if ok else
+                   '%s copies the atom bytes to positions scaled by %s but scales the backtrack by %d: '
+                   'an automaton hit is verified at the wrong distance from the atom and every '
+                   'occurrence whose atom is not at the string start is missed' % (
+                       f.name, sorted(scales, key=str), k))
+    ctx.count('atom_transformations', n_fn)
+
+
 def canon_stmt(f, n, depth=0):
     """statement-level canonical form (control structure + canon of expressions)"""
     if n is None or depth > 30:
@@ -397,3 +454,5 @@ def run(ctx):
     ctx.floor('R1.2', 16)
     r1_3(ctx)
     ctx.floor('R1.3', 9)
+    r1_4(ctx)
+    ctx.floor('R1.4', 3)
